@@ -31,7 +31,7 @@ def run(ctx):
                 'explicitly; every connectivity table of the input present, renumbered as the model says, consistent with the '
                 'others, same integer type and index base in the saved file; plus select_variables on subsets of the data variables. '
                 'non-trivial = the clip drops at least one cell; distinct by case description')
-    fl, tmp = cc.flows(ctx, 25 if quick else 120, quick)
+    fl, tmp = cc.flows(ctx, 30 if quick else 140, quick)
     exprs, plans = [], []
     try:
         for f in fl:
@@ -106,9 +106,22 @@ def run(ctx):
             else:
                 topo_in, topo_out = target.ems.topology, out.ems.topology
                 tabs = {'face': cc.tab_of(f.mask, 'new_face_index'), 'node': cc.tab_of(f.mask, 'new_node_index')}
-                has_edges = topo_in.has_edge_dimension and 'new_edge_index' in f.mask
-                if has_edges:
+                if f.d.spec['has_edge_dim'] and 'new_edge_index' in f.mask:
                     tabs['edge'] = cc.tab_of(f.mask, 'new_edge_index')
+                elif f.d.spec['has_edge_dim']:
+                    # the mask does not renumber the edges although the mesh has them: the edges that must survive are
+                    # the edges of the surviving faces (input tables), numbered in their original order
+                    with warnings.catch_warnings():
+                        warnings.simplefilter('ignore')
+                        fe_in = attempt(lambda: cc.opt_rows(topo_in.face_edge_array))
+                    if fe_in[0] == 'ok':
+                        kept_f = [i for i, x in enumerate(tabs['face']) if x is not None]
+                        used = sorted({x.v for i in kept_f for x in fe_in[1][i] if x is not None})
+                        tab = [None] * int(topo_in.edge_count)
+                        for new_i, e in enumerate(used):
+                            tab[e] = Some(new_i)
+                        tabs['edge'] = tab
+                        ctx.count('edge numbering derived by the harness (mask has no new_edge_index)')
                 keep = {k: [i for i, x in enumerate(t) if x is not None] for k, t in tabs.items()}
                 dropped = len(keep['face']) < len(tabs['face'])
                 ctx.case((case['dataset'], f.tag, f.buffer, f.history), dropped,
